@@ -31,6 +31,9 @@ Adv0 == l' = l + 1 /\ UNCHANGED <<x, mx, mxHi>>
 Adv == Adv0 /\ UNCHANGED <<retd, pre>>
 TNext == \/ Is("Submit") /\ P!Submit(E.k) /\ pre' = [pre EXCEPT ![E.k] = retd] /\ UNCHANGED retd /\ Adv0
          \/ Is("StartRet") /\ retd' = retd \cup {E.k} /\ UNCHANGED <<ts, inClear, inStop, stopped, live, pre>> /\ Adv0
+         \* start() threw because the worker thread could not be created: the task is queued all the same (it runs once a later
+         \* start() has spawned a worker), nothing else has changed -- in particular no worker exists that was not started
+         \/ Is("StartThrew") /\ ts[E.k] = "submitted" /\ retd' = retd \cup {E.k} /\ UNCHANGED <<ts, inClear, inStop, stopped, live, pre>> /\ Adv0
          \/ Is("RunBegin") /\ P!RunBeginB(E.k, mxHi, pre[E.k]) /\ Adv   \* submission order only while there never was more than one worker
          \/ Is("RunEnd") /\ P!RunEnd(E.k) /\ Adv
          \/ Is("Destroy") /\ P!Destroy(E.k) /\ Adv
